@@ -35,6 +35,7 @@ package txnlock
 //@   opaque-callee getTxnStatus Backoff
 //@   at call(getTxnStatus) assert asked: arg_txnID == l.TxnID && arg_primary == l.Primary && arg_callerStartTS == callerStartTS && arg_lockInfo == l && arg_forceSyncCommit == forceSyncCommit &&
 //@       (arg_currentTS == 18446744073709551615 ==> l.TTL == 0) && (arg_rollbackIfNotExist ==> oracleOf(lr.store).sawExpired)
+//@   at call(UntilExpired) assert ownttl: arg0 == l.TxnID && arg1 == l.TTL
 //@   loop 1 invariant expired: rollbackIfNotExist ==> oracleOf(lr.store).sawExpired
 //@   loop 1 invariant clock: currentTS == 18446744073709551615 ==> l.TTL == 0
 //@   ensures alive: result1 == nil && result0.ttl > 0 && result0.commitTS == 0 && result0.action == kvrpcpb.Action_NoAction && result0.primaryLock == nil ==> true
